@@ -821,14 +821,21 @@ def nontrivial(case, o):
 
 
 LEVEL_TEXT = ("Machine-checked proof (Coq 8.16) over an executable model of the configuration pipeline "
-              "declaration -> loader checks (ConfigBuilder::into_config) -> generate_config_messages (with the counter's machine width "
-              "regenerated from the source) -> ConfigState::dispatch: every accepted declaration with distinct keys yields messages a fresh "
-              "state accepts in full and a state containing exactly the declared objects for ANY number of entries and any HashMap order; "
-              "reload is the identity; message ids are pairwise distinct up to the counter modulus (refuted beyond it for the original u8); "
-              "the loader's acceptance implies every modelled documented constraint. The model is tied to command/src/{config,state}.rs on "
-              "every run by a constant translator and a differential run of the real loader on TOML printed from generated declarations.")
-LEVEL_NOTE = ("Trusted: Coq kernel; extraction + ocaml/driver.ml for the correspondence only; toml/serde (TOML -> FileConfig is covered by the "
-              "correspondence, not by a theorem: partial); certificate parsing is an oracle; answers/cipher/tls_versions/header-edit/metrics "
-              "sections are not modelled. 'Frontend without listener' is modelled as the code has it: an undeclared frontend address creates a "
-              "default listener of the frontend's protocol, a declared listener of another protocol is rejected.")
+              "declaration -> loader checks (FileConfig::load_from_path, ConfigBuilder::into_config) -> generate_config_messages (the "
+              "counter's machine width is regenerated from the source) -> ConfigState::dispatch. Theorems, for ANY number of entries and "
+              "any HashMap iteration order: load_total_and_exact (the generated requests are all accepted by a fresh state and the state "
+              "is exactly final_state), loaded_state_exact / loaded_config_exact (same objects, each once; every declared cluster with "
+              "all its frontends and backends), reload_idempotent, ids_unique_upto / ids_collide_beyond over any modulus, ids_unique for "
+              "the current counter (usize after the fix; ids_unique_refuted_u8 is the witness for the original u8), violations_rejected "
+              "(acceptance implies the modelled documented constraints). The model is tied to command/src/{config,state}.rs on every run "
+              "by a constant translator and a differential run of the real loader on TOML printed from generated declarations, in the "
+              "release and the overflow-checked build.")
+LEVEL_NOTE = ("Partial where stated: TOML -> FileConfig (toml/serde) is covered by the correspondence only; 'every frontend has a listener "
+              "of its protocol' is checked by the driver's oracle on every case but not proved; the theorems carry the decidable hypothesis "
+              "keys_ok (distinct frontends/backends): the loader does not enforce it (open findings dup-frontend-accepted, "
+              "dup-backend-merged). 'Frontend without listener' is modelled as the code has it: an undeclared frontend address gets a "
+              "default listener of the frontend's protocol, a declared listener of another protocol is rejected. Trusted: Coq kernel; "
+              "extraction + ocaml/driver.ml for the correspondence only; certificate parsing is an oracle; answers, cipher lists, "
+              "tls_versions, header edits, metrics sections are not modelled. Defects found and fixed in /repo: u8 message counter "
+              "(cd23906), certificate without key (1ae5a06), unvalidated health_check (c916f85).")
 TECHNIQUE = "Rocq/Coq proof over an executable Gallina model + differential correspondence (extracted OCaml vs real crate)"
